@@ -102,6 +102,25 @@ class Facts:
         b = _len_bound(atom, truth, text)
         if b or depth > 2:
             return b
+        # `x is not None` / truthiness of a local defined as `<value> if <cond> else None`: the value is not None only where
+        # <cond> held (and, for `None if <cond> else <value>`, where it did not)
+        nm = None
+        if isinstance(atom, ast.Compare) and len(atom.ops) == 1 and isinstance(atom.left, ast.Name) and isinstance(atom.comparators[0], ast.Constant) \
+                and atom.comparators[0].value is None and ((isinstance(atom.ops[0], ast.IsNot) and truth) or (isinstance(atom.ops[0], ast.Is) and not truth)):
+            nm = atom.left.id
+        elif isinstance(atom, ast.Name) and truth:
+            nm = atom.id
+        if nm is not None and len(self.defs.get(nm, [])) == 1 and isinstance(self.defs[nm][0], ast.IfExp):
+            d = self.defs[nm][0]
+            is_none = lambda e: isinstance(e, ast.Constant) and e.value is None  # noqa: E731
+            if is_none(d.orelse) and not is_none(d.body):
+                got = max([self.bound(a, t, text, depth + 1) for a, t in atoms(d.test, True)] or [0])
+                if got:
+                    return got
+            if is_none(d.body) and not is_none(d.orelse):
+                got = max([self.bound(a, t, text, depth + 1) for a, t in atoms(d.test, False)] or [0])
+                if got:
+                    return got
         if isinstance(atom, ast.Name) and len(self.defs.get(atom.id, [])) == 1 and self.defs[atom.id][0] is not None:
             return max([self.bound(a, t, text, depth + 1) for a, t in atoms(self.defs[atom.id][0], truth)] or [0])
         if isinstance(atom, ast.Call) and isinstance(atom.func, ast.Name):
